@@ -522,5 +522,37 @@ func findCallIP(p *an.Prog, fn *ssa.Function, name string) (*ssa.Call, func(ssa.
 	if n == 1 {
 		return found, bind
 	}
+	// or in a closure of fn (handed to a helper that calls it): a captured variable stands for what fn stored in it
+	if n == 0 {
+		for _, af := range fn.AnonFuncs {
+			cs := callsNamed(af, name)
+			if len(cs) != 1 {
+				continue
+			}
+			n++
+			found = cs[0]
+			af := af
+			bind = func(v ssa.Value) ssa.Value {
+				v = an.Strip(v)
+				ld, ok := v.(*ssa.UnOp)
+				if !ok {
+					return v
+				}
+				fv, ok := ld.X.(*ssa.FreeVar)
+				if !ok {
+					return v
+				}
+				if al, ok := cellOfFreeVar(fn, af, fv).(*ssa.Alloc); ok {
+					if st := an.Stores(al); len(st) == 1 {
+						return st[0]
+					}
+				}
+				return v
+			}
+		}
+		if n == 1 {
+			return found, bind
+		}
+	}
 	return nil, id
 }
